@@ -58,6 +58,10 @@ def _digit_blocks():
     return _ALL_DIGIT_BLOCKS
 
 
+_LINEBREAKS = frozenset(c for c in range(0x110000) if len(('a' + chr(c) + 'b').splitlines()) > 1)
+_LINEBREAK_RANGES = _ranges(sorted(_LINEBREAKS))
+
+
 def _in_ranges(c, ranges):
     alts = []
     for lo, hi in ranges:
@@ -505,8 +509,40 @@ class SymStr:
         out.reverse()
         return out
 
-    def splitlines(self):
-        raise Unsupported('splitlines')
+    def splitlines(self, keepends=False):
+        """str.splitlines: boundaries are the characters the running interpreter treats as line
+        breaks (table computed at import), '\\r\\n' counting as one; decided position by position"""
+        from .core import current
+        eng = current()
+        cs = self._self().cs
+        out = []
+        start = 0
+        i = 0
+        n = len(cs)
+        while i < n:
+            c = cs[i]
+            if isinstance(c, int):
+                brk = c in _LINEBREAKS
+            else:
+                brk = eng.decide(_in_ranges(c, _LINEBREAK_RANGES))
+            if not brk:
+                i += 1
+                continue
+            end = i + 1
+            if end < n:
+                if isinstance(c, int):
+                    is_cr = c == 13
+                else:
+                    is_cr = eng.decide(c == 13)
+                if is_cr:
+                    d = cs[end]
+                    if (d == 10) if isinstance(d, int) else eng.decide(d == 10):
+                        end += 1
+            out.append(simp(cs[start:end] if keepends else cs[start:i]))
+            start = i = end
+        if start < n:
+            out.append(simp(cs[start:]))
+        return out
 
     def lower(self):
         d = self._dom()
